@@ -62,7 +62,7 @@ def main():
         buf = io.StringIO()
         with contextlib.redirect_stdout(buf), contextlib.redirect_stderr(buf):
             try:
-                p = observe.parser().parse(probes[i])
+                p = observe.parser().parse((probes + c12.hash_probes())[i])
                 return p, None
             except BaseException as e:  # noqa
                 return None, ("run", type(e).__name__, "")
